@@ -1,6 +1,14 @@
 import AtreeProofs.Health.Check
 /-
-  C20 helper lemmas, part 4: the breadth-first `childRefs` query on a healthy heap.
+  C20 helper lemmas, part 4: the breadth-first `childRefs` query.
+
+  * exact behaviour of `childRefs` on EVERY heap: the levels it visits (`lvl`), what it returns when
+    they die out within the fuel, `diverges` otherwise;
+  * levels are paths (`PathL`), paths are `Reach`;
+  * without a cycle below the root a path has at most `h.length` edges, so the query terminates and
+    returns exactly the resolvable / the broken references reachable through resolvable slabs
+    (`allChildReferences_general`); with a cycle it diverges (`allChildReferences_diverges_iff`);
+  * the healthy case (`allChildReferences_healthy`) as a corollary.
 -/
 namespace Atree
 namespace Health
@@ -26,141 +34,378 @@ theorem mem_kids (h : Heap) (hk : (AList.keys h).Nodup) (y c : SlabID) :
   rw [mem_edges_find h hk, kids]
   cases AList.find? h y <;> simp
 
-/-- one level of the breadth-first traversal -/
-def levelStep (h : Heap) (acc : List SlabID × List SlabID × List SlabID) (r : SlabID) :
-    List SlabID × List SlabID × List SlabID :=
-  match AList.find? h r with
-  | none => (acc.1, acc.2.1 ++ [r], acc.2.2)
-  | some s => (acc.1 ++ [r], acc.2.1, acc.2.2 ++ s.refs)
+/-- the resolvable / the unresolvable members of a level -/
+def resOf (h : Heap) (l : List SlabID) : List SlabID := l.filter (fun r => AList.contains h r)
+def brkOf (h : Heap) (l : List SlabID) : List SlabID := l.filter (fun r => !AList.contains h r)
 
-theorem foldl_levelStep (h : Heap) (level a b c : List SlabID)
-    (hres : ∀ r ∈ level, AList.contains h r = true) :
-    level.foldl (levelStep h) (a, b, c) = (a ++ level, b, c ++ level.flatMap (kids h)) := by
+theorem mem_resOf (h : Heap) (l : List SlabID) (x : SlabID) :
+    x ∈ resOf h l ↔ x ∈ l ∧ AList.contains h x = true := by simp [resOf]
+
+theorem mem_brkOf (h : Heap) (l : List SlabID) (x : SlabID) :
+    x ∈ brkOf h l ↔ x ∈ l ∧ AList.contains h x = false := by simp [brkOf]
+
+theorem resOf_append (h : Heap) (a b : List SlabID) : resOf h (a ++ b) = resOf h a ++ resOf h b := by
+  simp [resOf]
+
+theorem brkOf_append (h : Heap) (a b : List SlabID) : brkOf h (a ++ b) = brkOf h a ++ brkOf h b := by
+  simp [brkOf]
+
+/-- one level of the breadth-first traversal, on any heap -/
+theorem foldl_levelStep (h : Heap) (level a b c : List SlabID) :
+    level.foldl (levelStep h) (a, b, c)
+      = (a ++ resOf h level, b ++ brkOf h level, c ++ level.flatMap (kids h)) := by
   induction level generalizing a b c with
-  | nil => simp
+  | nil => simp [resOf, brkOf]
   | cons r rest ih =>
-    obtain ⟨s, hs⟩ := (contains_iff_find h r).mp (hres r (List.mem_cons_self ..))
     rw [List.foldl_cons]
-    have : levelStep h (a, b, c) r = (a ++ [r], b, c ++ kids h r) := by
-      simp [levelStep, kids, hs]
-    rw [this, ih _ _ _ (fun x hx => hres x (List.mem_cons_of_mem _ hx))]
-    simp
-
-theorem childRefs_zero (h : Heap) (level refs broken : List SlabID) :
-    childRefs h 0 level refs broken = (refs, broken) := by
-  simp [childRefs]
+    cases hs : AList.find? h r with
+    | none =>
+      have hc : AList.contains h r = false := by rw [AList.contains_eq, hs]; rfl
+      have : levelStep h (a, b, c) r = (a, b ++ [r], c) := by simp [levelStep, hs]
+      rw [this, ih]
+      simp [resOf, brkOf, hc, kids, hs]
+    | some s =>
+      have hc : AList.contains h r = true := by rw [AList.contains_eq, hs]; rfl
+      have : levelStep h (a, b, c) r = (a ++ [r], b, c ++ s.refs) := by simp [levelStep, hs]
+      rw [this, ih]
+      simp [resOf, brkOf, hc, kids, hs]
 
 theorem childRefs_nil (h : Heap) (fuel : Nat) (refs broken : List SlabID) :
-    childRefs h fuel [] refs broken = (refs, broken) := by
+    childRefs h fuel [] refs broken = .ok (refs, broken) := by
   cases fuel <;> simp [childRefs]
 
-theorem childRefs_step (h : Heap) (fuel : Nat) (y : SlabID) (ys refs broken : List SlabID)
-    (hres : ∀ r ∈ y :: ys, AList.contains h r = true) :
+theorem childRefs_zero_cons (h : Heap) (y : SlabID) (ys refs broken : List SlabID) :
+    childRefs h 0 (y :: ys) refs broken = .error .diverges := by
+  simp [childRefs]
+
+theorem childRefs_step (h : Heap) (fuel : Nat) (y : SlabID) (ys refs broken : List SlabID) :
     childRefs h (fuel + 1) (y :: ys) refs broken =
-      childRefs h fuel ((y :: ys).flatMap (kids h)) (refs ++ (y :: ys)) broken := by
+      childRefs h fuel ((y :: ys).flatMap (kids h)) (refs ++ resOf h (y :: ys))
+        (broken ++ brkOf h (y :: ys)) := by
   have h1 : childRefs h (fuel + 1) (y :: ys) refs broken =
       childRefs h fuel ((y :: ys).foldl (levelStep h) (refs, broken, [])).2.2
         ((y :: ys).foldl (levelStep h) (refs, broken, [])).1
         ((y :: ys).foldl (levelStep h) (refs, broken, [])).2.1 := by
     rw [childRefs]
-    · rfl
-    · intro hnil; cases hnil
-  rw [h1, foldl_levelStep h (y :: ys) refs broken [] hres]
+  rw [h1, foldl_levelStep h (y :: ys) refs broken []]
   simp only [List.nil_append]
 
-theorem childRefs_spec {h : Heap} {R : List SlabID} {po : AList SlabID SlabID}
-    (hh : Healthy h R) (hk : (AList.keys h).Nodup) (hpo : IsParentMap h po) :
-    ∀ (fuel : Nat) (level refs broken : List SlabID),
-      (∀ y ∈ level, y ∈ targets h) →
-      (∀ y ∈ level, ∀ l r, Chain h po y l r → h.length ≤ l.length + fuel) →
-      (childRefs h fuel level refs broken).2 = broken ∧
-      ∀ x, x ∈ (childRefs h fuel level refs broken).1 ↔ x ∈ refs ∨ ∃ y ∈ level, Reach h y x := by
-  have hkey : ∀ y, y ∈ targets h → y ∈ AList.keys h := by
-    intro y hy
-    obtain ⟨p, he⟩ := (mem_targets h y).mp hy
-    exact (contains_iff_mem_keys h y).mp (hh.resolves _ he)
+/-! ### levels -/
+
+/-- the `k`-th level of the traversal started with the level `l` -/
+def lvl (h : Heap) : Nat → List SlabID → List SlabID
+  | 0, l => l
+  | k + 1, l => lvl h k (l.flatMap (kids h))
+
+/-- the first `n` levels, concatenated -/
+def upTo (h : Heap) : Nat → List SlabID → List SlabID
+  | 0, _ => []
+  | n + 1, l => l ++ upTo h n (l.flatMap (kids h))
+
+theorem lvl_nil (h : Heap) (k : Nat) : lvl h k [] = [] := by
+  induction k with
+  | zero => rfl
+  | succ k ih => simpa [lvl] using ih
+
+theorem upTo_nil (h : Heap) (n : Nat) : upTo h n [] = [] := by
+  induction n with
+  | zero => rfl
+  | succ n ih => simpa [upTo] using ih
+
+theorem mem_upTo (h : Heap) (n : Nat) (l : List SlabID) (x : SlabID) :
+    x ∈ upTo h n l ↔ ∃ k, k < n ∧ x ∈ lvl h k l := by
+  induction n generalizing l with
+  | zero => simp [upTo]
+  | succ n ih =>
+    rw [upTo, List.mem_append, ih]
+    constructor
+    · rintro (h1 | ⟨k, hk, hx⟩)
+      · exact ⟨0, by omega, h1⟩
+      · exact ⟨k + 1, by omega, hx⟩
+    · rintro ⟨k, hk, hx⟩
+      cases k with
+      | zero => exact Or.inl hx
+      | succ k => exact Or.inr ⟨k, by omega, hx⟩
+
+/-- EXACT behaviour of `childRefs`, on every heap: if the levels die out within the fuel, the
+    resolvable and the unresolvable members of all levels; `diverges` otherwise. -/
+theorem childRefs_eq (h : Heap) : ∀ (fuel : Nat) (level refs broken : List SlabID),
+    childRefs h fuel level refs broken =
+      if lvl h fuel level = [] then
+        .ok (refs ++ resOf h (upTo h fuel level), broken ++ brkOf h (upTo h fuel level))
+      else .error .diverges := by
   intro fuel
   induction fuel with
   | zero =>
-    intro level refs broken htgt hfuel
-    rw [childRefs_zero]
+    intro level refs broken
     cases level with
-    | nil => simp
-    | cons y ys =>
-      exfalso
-      have hy := hkey y (htgt y (List.mem_cons_self ..))
-      obtain ⟨l, r, hc, _⟩ := chain_exists hh hpo hy
-      have h1 := hc.length_lt hy
-      have h2 := hfuel y (List.mem_cons_self ..) l r hc
-      omega
+    | nil => simp [childRefs_nil, lvl, upTo, resOf, brkOf]
+    | cons y ys => simp [childRefs_zero_cons, lvl]
   | succ fuel ih =>
-    intro level refs broken htgt hfuel
+    intro level refs broken
     cases level with
-    | nil => rw [childRefs_nil]; simp
+    | nil => simp [childRefs_nil, lvl_nil, upTo_nil, resOf, brkOf]
     | cons y ys =>
-      rw [childRefs_step h fuel y ys refs broken
-        (fun r hr => (contains_iff_mem_keys h r).mpr (hkey r (htgt r hr)))]
-      have hIH := ih ((y :: ys).flatMap (kids h)) (refs ++ (y :: ys)) broken ?_ ?_
-      · refine ⟨hIH.1, ?_⟩
-        intro x
-        rw [hIH.2 x, List.mem_append]
-        constructor
-        · rintro ((h1 | h1) | ⟨c, hc, hr⟩)
-          · exact Or.inl h1
-          · exact Or.inr ⟨x, h1, Reach.refl x⟩
-          · obtain ⟨p, hp, hcp⟩ := List.mem_flatMap.mp hc
-            exact Or.inr ⟨p, hp, Reach.head ((mem_kids h hk p c).mp hcp) hr⟩
-        · rintro (h1 | ⟨p, hp, hr⟩)
-          · exact Or.inl (Or.inl h1)
-          · rcases hr.cases_head with rfl | ⟨b, he, hr'⟩
-            · exact Or.inl (Or.inr hp)
-            · exact Or.inr ⟨b, List.mem_flatMap.mpr ⟨p, hp, (mem_kids h hk p b).mpr he⟩, hr'⟩
-      · intro c hc
-        obtain ⟨p, _, hcp⟩ := List.mem_flatMap.mp hc
-        exact (mem_targets h c).mpr ⟨p, (mem_kids h hk p c).mp hcp⟩
-      · intro c hc l r hch
-        obtain ⟨p, hp, hcp⟩ := List.mem_flatMap.mp hc
-        have hpc := (hpo c p).mpr ((mem_kids h hk p c).mp hcp)
-        cases hch with
-        | root hx => rw [hpc] at hx; cases hx
-        | step hx _ _ _ hch' =>
-          rw [hpc] at hx
-          cases hx
-          have := hfuel p hp _ r hch'
-          simp
-          omega
+      rw [childRefs_step, ih]
+      simp only [lvl, upTo, resOf_append, brkOf_append, List.append_assoc]
 
-theorem allChildReferences_healthy (h : Heap) (hk : (AList.keys h).Nodup) (R : List SlabID)
-    (hh : Healthy h R) (root : SlabID) (hroot : AList.contains h root = true) :
-    ∃ refs broken, allChildReferences h root = some (refs, broken) ∧ broken = [] ∧
-      (∀ id, id ∈ refs ↔ (Reach h root id ∧ id ≠ root)) := by
-  obtain ⟨po, hpo⟩ := exists_parentMap hh
-  obtain ⟨s, hs⟩ := (contains_iff_find h root).mp hroot
+/-! ### paths -/
+
+/-- `PathL h a l c`: a path from `a` to `c` along references; `l` lists the SOURCES of its edges
+    (`a` first), so `l.length` is the number of edges. -/
+inductive PathL (h : Heap) : SlabID → List SlabID → SlabID → Prop where
+  | nil (a : SlabID) : PathL h a [] a
+  | cons {a b c : SlabID} {l : List SlabID} : (a, b) ∈ edges h → PathL h b l c → PathL h a (a :: l) c
+
+theorem PathL.reach {h : Heap} {a c : SlabID} {l : List SlabID} (hp : PathL h a l c) :
+    Reach h a c := by
+  induction hp with
+  | nil => exact Reach.refl _
+  | cons he _ ih => exact Reach.head he ih
+
+theorem PathL.snoc {h : Heap} {a b c : SlabID} {l : List SlabID} (hp : PathL h a l b)
+    (he : (b, c) ∈ edges h) : PathL h a (l ++ [b]) c := by
+  induction hp with
+  | nil => exact PathL.cons he (PathL.nil c)
+  | cons he' _ ih => exact PathL.cons he' (ih he)
+
+theorem PathL.of_reach {h : Heap} {a c : SlabID} (hr : Reach h a c) : ∃ l, PathL h a l c := by
+  induction hr with
+  | refl => exact ⟨[], PathL.nil _⟩
+  | step _ he ih =>
+    obtain ⟨l, hp⟩ := ih
+    exact ⟨_, hp.snoc he⟩
+
+theorem PathL.append {h : Heap} {a b c : SlabID} {l l' : List SlabID} (hp : PathL h a l b)
+    (hq : PathL h b l' c) : PathL h a (l ++ l') c := by
+  induction hp with
+  | nil => exact hq
+  | cons he _ ih => exact PathL.cons he (ih hq)
+
+/-- every source of a path is reached from its start, and is a slab of the heap -/
+theorem PathL.source_reach {h : Heap} {a c : SlabID} {l : List SlabID} (hp : PathL h a l c) :
+    ∀ v ∈ l, Reach h a v ∧ v ∈ AList.keys h := by
+  induction hp with
+  | nil => intro v hv; cases hv
+  | @cons a b c l he _ ih =>
+    intro v hv
+    rcases List.mem_cons.mp hv with rfl | hv
+    · exact ⟨Reach.refl _, source_mem_keys h _ b he⟩
+    · exact ⟨Reach.head he (ih v hv).1, (ih v hv).2⟩
+
+/-- every prefix of a path is a path -/
+theorem PathL.take {h : Heap} {a c : SlabID} {l : List SlabID} (hp : PathL h a l c) (m : Nat) :
+    ∃ z, PathL h a (l.take m) z := by
+  induction hp generalizing m with
+  | nil => exact ⟨_, by simpa using PathL.nil _⟩
+  | @cons a b c l he _ ih =>
+    cases m with
+    | zero => exact ⟨a, by simpa using PathL.nil a⟩
+    | succ m =>
+      obtain ⟨z, hz⟩ := ih m
+      exact ⟨z, by simpa using PathL.cons he hz⟩
+
+/-- without a cycle below the start the sources of a path are pairwise distinct -/
+theorem PathL.nodup {h : Heap} {a c : SlabID} {l : List SlabID} (hp : PathL h a l c)
+    (hac : NoCycleBelow h a) : l.Nodup := by
+  induction hp with
+  | nil => exact List.nodup_nil
+  | @cons a b c l he hp' ih =>
+    have hac' : NoCycleBelow h b := fun x y hx hxy => hac x y (Reach.head he hx) hxy
+    refine List.nodup_cons.mpr ⟨?_, ih hac'⟩
+    intro ha
+    exact hac a b (Reach.refl a) he (hp'.source_reach a ha).1
+
+/-- ... so the path has at most as many edges as the heap has slabs -/
+theorem PathL.length_le {h : Heap} {a c : SlabID} {l : List SlabID} (hp : PathL h a l c)
+    (hac : NoCycleBelow h a) : l.length ≤ h.length := by
+  have hnd := hp.nodup hac
+  have hsub : l ⊆ AList.keys h := fun v hv => (hp.source_reach v hv).2
+  have := hnd.length_le_of_subset hsub
+  simpa [AList.keys] using this
+
+/-- levels are ends of paths -/
+theorem mem_lvl (h : Heap) (hk : (AList.keys h).Nodup) (k : Nat) (l : List SlabID) (x : SlabID) :
+    x ∈ lvl h k l ↔ ∃ y ∈ l, ∃ p, PathL h y p x ∧ p.length = k := by
+  induction k generalizing l with
+  | zero =>
+    simp only [lvl]
+    constructor
+    · intro hx; exact ⟨x, hx, [], PathL.nil x, rfl⟩
+    · rintro ⟨y, hy, p, hp, hlen⟩
+      cases hp with
+      | nil => exact hy
+      | cons _ _ => simp at hlen
+  | succ k ih =>
+    rw [lvl, ih]
+    constructor
+    · rintro ⟨b, hb, p, hp, hlen⟩
+      obtain ⟨y, hy, hyb⟩ := List.mem_flatMap.mp hb
+      exact ⟨y, hy, y :: p, PathL.cons ((mem_kids h hk y b).mp hyb) hp, by simp [hlen]⟩
+    · rintro ⟨y, hy, p, hp, hlen⟩
+      cases hp with
+      | nil => simp at hlen
+      | @cons _ b _ p' he hp' =>
+        exact ⟨b, List.mem_flatMap.mpr ⟨y, hy, (mem_kids h hk y b).mpr he⟩, p', hp',
+          by simpa using hlen⟩
+
+/-! ### the query from a slab of the heap -/
+
+/-- the levels below `root` are ends of non-empty paths from `root` -/
+theorem mem_lvl_root (h : Heap) (hk : (AList.keys h).Nodup) (root : SlabID) (s : HSlab)
+    (hs : AList.find? h root = some s) (k : Nat) (x : SlabID) :
+    x ∈ lvl h k s.refs ↔ ∃ p, PathL h root p x ∧ p.length = k + 1 := by
   have hedge : ∀ c, c ∈ s.refs ↔ (root, c) ∈ edges h := by
     intro c
     rw [mem_edges_find h hk]
     simp [hs]
-  obtain ⟨hb, hr⟩ := childRefs_spec hh hk hpo (h.length + 1) s.refs [] []
-    (fun y hy => (mem_targets h y).mpr ⟨root, (hedge y).mp hy⟩)
-    (fun _ _ _ _ _ => by omega)
-  refine ⟨(childRefs h (h.length + 1) s.refs [] []).1, (childRefs h (h.length + 1) s.refs [] []).2,
-    by simp [allChildReferences, hs], hb, ?_⟩
-  intro id
-  rw [hr id]
-  simp only [List.not_mem_nil, false_or]
-  have hrk := (contains_iff_mem_keys h root).mp hroot
+  rw [mem_lvl h hk]
   constructor
-  · rintro ⟨y, hy, hreach⟩
-    refine ⟨Reach.head ((hedge y).mp hy) hreach, ?_⟩
-    rintro rfl
-    obtain ⟨l, r, hc, _⟩ := chain_exists hh hpo hrk
-    have hcy := chain_step_of_edge hh hpo ((hedge y).mp hy) hc
-    obtain ⟨l', hc', _⟩ := chain_extend_of_reach hh hpo hcy hreach
-    exact hc'.not_mem (by simp)
-  · rintro ⟨hreach, hne⟩
-    rcases hreach.cases_head with rfl | ⟨b, he, hr'⟩
-    · exact absurd rfl hne
-    · exact ⟨b, (hedge b).mpr he, hr'⟩
+  · rintro ⟨y, hy, p, hp, hlen⟩
+    exact ⟨root :: p, PathL.cons ((hedge y).mp hy) hp, by simp [hlen]⟩
+  · rintro ⟨p, hp, hlen⟩
+    cases hp with
+    | nil => simp at hlen
+    | @cons _ b _ p' he hp' => exact ⟨b, (hedge b).mpr he, p', hp', by simpa using hlen⟩
+
+/-- a non-empty path from `root` ends at the target of an edge whose source `root` reaches -/
+theorem pathL_succ_iff (h : Heap) (root x : SlabID) :
+    (∃ p, PathL h root p x ∧ 0 < p.length) ↔ ∃ q, Reach h root q ∧ (q, x) ∈ edges h := by
+  constructor
+  · rintro ⟨p, hp, hlen⟩
+    -- peel the last edge: induction on the path
+    have key : ∀ {a c : SlabID} {l : List SlabID}, PathL h a l c → 0 < l.length →
+        ∃ q, Reach h a q ∧ (q, c) ∈ edges h := by
+      intro a c l hp
+      induction hp with
+      | nil => intro hl; simp at hl
+      | @cons a b c l he hp' ih =>
+        intro _
+        cases hp' with
+        | nil => exact ⟨a, Reach.refl a, he⟩
+        | cons he' hp'' =>
+          obtain ⟨q, hq, hqc⟩ := ih (by simp)
+          exact ⟨q, Reach.head he hq, hqc⟩
+    exact key hp hlen
+  · rintro ⟨q, hq, he⟩
+    obtain ⟨l, hp⟩ := PathL.of_reach hq
+    exact ⟨l ++ [q], hp.snoc he, by simp⟩
+
+/-- GENERAL statement for the all-child-references query (no `Healthy` hypothesis): on a heap with
+    unique keys and no reference cycle below `root`, the query terminates; it reports as references
+    exactly the slabs of the heap, and as broken references exactly the identifiers that are not in
+    the heap, that are the target of a reference held by a slab reachable from `root` (through
+    slabs of the heap: only those have references). -/
+theorem allChildReferences_general (h : Heap) (hk : (AList.keys h).Nodup) (root : SlabID)
+    (hroot : AList.contains h root = true) (hac : NoCycleBelow h root) :
+    ∃ refs broken, allChildReferences h root = .ok (refs, broken) ∧
+      (∀ id, id ∈ refs ↔ (AList.contains h id = true ∧ ∃ p, Reach h root p ∧ (p, id) ∈ edges h)) ∧
+      (∀ id, id ∈ broken ↔ (AList.contains h id = false ∧ ∃ p, Reach h root p ∧ (p, id) ∈ edges h)) := by
+  obtain ⟨s, hs⟩ := (contains_iff_find h root).mp hroot
+  have hdead : lvl h (h.length + 1) s.refs = [] := by
+    apply List.eq_nil_iff_forall_not_mem.mpr
+    intro x hx
+    obtain ⟨p, hp, hlen⟩ := (mem_lvl_root h hk root s hs _ x).mp hx
+    have := hp.length_le hac
+    omega
+  have hmem : ∀ x, x ∈ upTo h (h.length + 1) s.refs ↔ ∃ q, Reach h root q ∧ (q, x) ∈ edges h := by
+    intro x
+    rw [mem_upTo, ← pathL_succ_iff]
+    constructor
+    · rintro ⟨k, _, hx⟩
+      obtain ⟨p, hp, hlen⟩ := (mem_lvl_root h hk root s hs k x).mp hx
+      exact ⟨p, hp, by omega⟩
+    · rintro ⟨p, hp, hlen⟩
+      have hle := hp.length_le hac
+      exact ⟨p.length - 1, by omega, (mem_lvl_root h hk root s hs _ x).mpr ⟨p, hp, by omega⟩⟩
+  refine ⟨resOf h (upTo h (h.length + 1) s.refs), brkOf h (upTo h (h.length + 1) s.refs), ?_, ?_, ?_⟩
+  · simp [allChildReferences, hs, childRefs_eq, hdead]
+  · intro id
+    rw [mem_resOf, hmem]
+    exact And.comm
+  · intro id
+    rw [mem_brkOf, hmem]
+    exact And.comm
+
+/-- With a cycle below `root` the query diverges, and only then: the model answers `diverges`
+    exactly on the heaps on which the Go loop does not terminate. -/
+theorem allChildReferences_diverges_iff (h : Heap) (hk : (AList.keys h).Nodup) (root : SlabID)
+    (hroot : AList.contains h root = true) :
+    allChildReferences h root = .error .diverges ↔ ¬ NoCycleBelow h root := by
+  constructor
+  · intro hd hac
+    obtain ⟨refs, broken, hok, _⟩ := allChildReferences_general h hk root hroot hac
+    rw [hok] at hd
+    cases hd
+  · intro hnc
+    obtain ⟨s, hs⟩ := (contains_iff_find h root).mp hroot
+    -- a cycle: x reachable, edge x → y, y reaches x
+    have : ∃ x y, Reach h root x ∧ (x, y) ∈ edges h ∧ Reach h y x := by
+      apply Classical.byContradiction
+      intro hne
+      exact hnc (fun x y hx hxy hyx => hne ⟨x, y, hx, hxy, hyx⟩)
+    obtain ⟨x, y, hx, hxy, hyx⟩ := this
+    obtain ⟨l0, hp0⟩ := PathL.of_reach hx
+    obtain ⟨l1, hp1⟩ := PathL.of_reach hyx
+    -- the cycle as a path x → x with at least one edge, and its powers
+    have hcyc : PathL h x (x :: l1) x := PathL.cons hxy hp1
+    have hpow : ∀ j : Nat, ∃ l, PathL h x l x ∧ j ≤ l.length := by
+      intro j
+      induction j with
+      | zero => exact ⟨[], PathL.nil x, Nat.le_refl _⟩
+      | succ j ih =>
+        obtain ⟨l, hl, hlen⟩ := ih
+        exact ⟨(x :: l1) ++ l, hcyc.append hl, by simp; omega⟩
+    -- hence a path from root with exactly h.length + 2 edges
+    obtain ⟨l, hl, hlen⟩ := hpow (h.length + 2)
+    obtain ⟨z, hz⟩ := (hp0.append hl).take (h.length + 2)
+    have hzlen : ((l0 ++ l).take (h.length + 2)).length = h.length + 1 + 1 := by
+      rw [List.length_take, List.length_append]; omega
+    have hne : lvl h (h.length + 1) s.refs ≠ [] := by
+      intro he
+      have := (mem_lvl_root h hk root s hs (h.length + 1) z).mpr ⟨_, hz, hzlen⟩
+      rw [he] at this
+      cases this
+    simp [allChildReferences, hs, childRefs_eq, hne]
+
+/-! ### the healthy case -/
+
+/-- a healthy heap has no reference cycle -/
+theorem Healthy.noCycleBelow {h : Heap} {R : List SlabID} (hh : Healthy h R) (root : SlabID) :
+    NoCycleBelow h root := by
+  obtain ⟨po, hpo⟩ := exists_parentMap hh
+  intro x y _ hxy hyx
+  have hxk : x ∈ AList.keys h := source_mem_keys h x y hxy
+  obtain ⟨l, r, hc, _⟩ := chain_exists hh hpo hxk
+  have hcy := chain_step_of_edge hh hpo hxy hc
+  obtain ⟨l', hc', _⟩ := chain_extend_of_reach hh hpo hcy hyx
+  exact hc'.not_mem (by simp)
+
+theorem allChildReferences_healthy (h : Heap) (hk : (AList.keys h).Nodup) (R : List SlabID)
+    (hh : Healthy h R) (root : SlabID) (hroot : AList.contains h root = true) :
+    ∃ refs broken, allChildReferences h root = .ok (refs, broken) ∧ broken = [] ∧
+      (∀ id, id ∈ refs ↔ (Reach h root id ∧ id ≠ root)) := by
+  have hac := hh.noCycleBelow root
+  obtain ⟨refs, broken, hok, hrefs, hbroken⟩ := allChildReferences_general h hk root hroot hac
+  refine ⟨refs, broken, hok, ?_, ?_⟩
+  · apply List.eq_nil_iff_forall_not_mem.mpr
+    intro id hid
+    obtain ⟨hc, p, _, he⟩ := (hbroken id).mp hid
+    have := hh.resolves _ he
+    simp only at this
+    rw [hc] at this
+    cases this
+  · intro id
+    rw [hrefs id]
+    constructor
+    · rintro ⟨_, p, hp, he⟩
+      refine ⟨Reach.step hp he, ?_⟩
+      rintro rfl
+      exact hac p id hp he hp
+    · rintro ⟨hreach, hne⟩
+      cases hreach with
+      | refl => exact absurd rfl hne
+      | step hp he => exact ⟨hh.resolves _ he, _, hp, he⟩
 
 end Health
 end Atree
